@@ -305,7 +305,10 @@ def fits : Shape → Heap → Item → Bool
   | .coll k _, h, i => refFits k h i
   | .keyed k _, h, i => refFits k h i
   | .wrap _ _, _, _ => true
-  | .wrapN k _ opts, h, i => fitsOpts (k == .allOf) opts h i
+  | .wrapN k p opts, h, i =>
+    match p with
+    | .fixed _ => true            -- a delegating `<Wrapper>.serialize` takes whatever it is handed and decides inside
+    | .firstFit => fitsOpts (k == .allOf) opts h i
   | .owned s, h, i => fits s h i
 termination_by structural s => s
 /-- `all = false`: some option fits (AnyOf / OneOf); `all = true`: every option fits (AllOf) -/
